@@ -173,6 +173,13 @@ def step (s : S) (ws0 : List String) : S × String :=
               | none => true
               | some g => (getT s.db.root it.table).gen > g
             if it.pending.isNone ∧ !closed then (s, "open .")
+            else if it.stale committed then
+              -- Next hands back the stale snapshot's own watch channel and delivers nothing
+              let it := it.refresh committed ts true
+              let nowClosed := match it.watchGen with
+                | none => true
+                | some g => (getT s.db.root it.table).gen > g
+              ({ s with db := { s.db with iters := s.db.iters.set! ci it } }, if nowClosed then "closed ." else "open .")
             else
               let it := it.refresh committed ts true
               let (db, _, taken) := consume s.db ci it k
@@ -264,7 +271,7 @@ def step (s : S) (ws0 : List String) : S × String :=
           let t := getT es ti
           if !t.locked then (s, "notLocked") else
           let id := s.db.nextTracker
-          let it : ChangeIter := { table := ti, revision := 0, deleteRevision := t.rev, tracker := id, pending := none, watchGen := none }
+          let it : ChangeIter := { table := ti, revision := 0, deleteRevision := t.rev, tracker := id, pending := none, watchGen := none, base := t.rev }
           let t := { t with trackers := id :: t.trackers }
           let es := es.set ti t
           let it := it.refresh s.db.oldRoot es true
